@@ -298,6 +298,37 @@ def birthday(ctx, n=1 << 18):
             return
 
 
+def sized_twins(ctx):
+    """twin texts around a big comment of n characters that are 1, 2, 3 or 4 bytes wide each (n = 300 .. 1.1 million): they differ only in a label at the
+    very END of the text, or only in the salt at its very START.  A digest of the text that is fed piecewise (by blocks, by a character count where a byte
+    count is meant, up to a limit) is blind to one of the two; the evaluator must answer like one built from the second text."""
+    from pyab_experiment.experiment_evaluator import ExperimentEvaluator
+    envs = [{"u": "unit%d" % i} for i in range(6)]
+    sizes = [300, 5000, 33000, 70000, 300000] + [1100000]
+    for n in sizes:
+        for ch in ("x", "\u00e9", "\u4e2d", "\U0001f600"):
+            pad = "/*" + ch * n + "*/"
+            for where, t1, t2 in (("end", 'def e { salt: "s" splitters: u ' + pad + ' return "a" weighted 1, "b" weighted 1 }', 'def e { salt: "s" splitters: u ' + pad + ' return "c" weighted 1, "d" weighted 1 }'),
+                                  ("start", 'def e { salt: "s1" splitters: u return "a" weighted 1, "b" weighted 1, "c" weighted 1, "d" weighted 1 ' + pad + ' }',
+                                   'def e { salt: "s2" splitters: u return "a" weighted 1, "b" weighted 1, "c" weighted 1, "d" weighted 1 ' + pad + ' }')):
+                ctx.count("twin:sized:" + where)
+                ctx.case(("twin-sized", n, ch, where), True)
+                try:
+                    ev, _ = common.quiet(lambda: ExperimentEvaluator(t1))
+                    common.quiet(lambda: ev.recompile(t2))
+                except Exception as ex:  # noqa
+                    ctx.violation(f"twin slice: a grammatical experiment with a comment of {n} characters {ch!r} does not compile / recompile ({common.classify_exc(ex)})",
+                                  {"comment_chars": n, "char": ch, "differs_at": where, "text_head": t2[:60], "text_tail": t2[-60:]})
+                    return
+                after = [common.outcome_of(lambda e=e: ev(**e)) for e in envs]
+                fresh = _fresh(t2, envs)
+                if after != fresh:
+                    ctx.violation(f"after recompile() with a text that differs from the loaded one only at its {where} (both hold a comment of {n} characters {ch!r}, {len(ch.encode('utf-8'))} "
+                                  f"byte(s) each), the evaluator answers {json.dumps(after)[:120]}; an evaluator built from that text answers {json.dumps(fresh)[:120]}",
+                                  {"comment_chars": n, "char": ch, "differs_at": where, "t1_head": t1[:50], "t1_tail": t1[-50:], "t2_head": t2[:50], "t2_tail": t2[-50:], "impl": after, "fresh": fresh})
+                    return
+
+
 def _fresh(text, envs):
     from pyab_experiment.experiment_evaluator import ExperimentEvaluator
     try:
@@ -315,6 +346,9 @@ def run(ctx, focuses, n, with_model=True):
     if not with_model or "trivia" in focuses:
         # (always in C11's own run, otherwise only when the deeper search was triggered)
         birthday(ctx, (1 << 18) if (not with_model or ctx.tier == "thorough") else (1 << 17))
+    sized_twins(ctx)
+    if ctx.new_violations():
+        return
     plan = []
     for f in focuses:
         plan += [(f,) + p for p in pairs(rng, f, n)]
